@@ -259,6 +259,9 @@ Next ==
   \/ (Race \/ c.pc = "idle") /\ Block
   \/ (Race \/ c.pc = "idle") /\ Reorg
 
+\* C07 (the basis of a safe report is not lost): the trusted mark of a mempool entry stays while the entry exists within one process
+TrustStickyP(m1, m2, a) == \A t \in Tx : (m1[t].tr /\ m2[t].st # "no" /\ a # "Restart") => m2[t].tr
+TrustSticky == [][TrustStickyP(mp, mp', act'.a)]_vars
 Spec == Init /\ [][Next]_vars
 
 -----------------------------------------------------------------------------
